@@ -189,6 +189,18 @@ PROPS = {
              "positional definition; clip idempotence / containment for lower<=upper. distinct = (function, type, len, parameters) "
              "with a non-null element",
     ),
+    "C14": dict(
+        bin="c14",
+        quick=NATIVE_QR, thorough=NATIVE_T,
+        floors={"cut_label_ok": 1000, "cut_null_ok": 50, "cut_outside_err_ok": 100, "cut_label_mismatch_err_ok": 100, "cut_extreme_cases": 20,
+                "cut_label_ok_i32": 200, "ok.vsorted_unique_idx(First)": 200, "ok.vsorted_unique_idx(Last)": 200, "ok.vsorted_unique": 200},
+        rule="vcut: ascending edge vectors of size 0..5 x label counts 0..6 x {right, left closed} x {open outer bounds, none}; values "
+             "random, equal to an edge, nulls, and the element type's MIN / MAX / +-inf (f64 and i32 elements, f64 / Option<i32> labels); "
+             "oracle = the unique interval containing the value, Err for an outside value, Err for a label-count mismatch. "
+             "vsorted_unique_idx(First|Last) / vsorted_unique on run-structured series (ascending / descending runs of length 1..4, null "
+             "block of 0..3 at head or tail, both encodings): oracle = first / last index of each run of equal non-null values. "
+             "distinct = (function, parameters, len)",
+    ),
 }
 
 for _k in list(PROPS):
